@@ -211,7 +211,15 @@ func c11Run(raw json.RawMessage, c *mc.Ctx) {
 			fmt.Fprintf(&b, "%s resultfolder=%s\n", w.Lines[n], filepath.Join(root, "got", fmt.Sprintf("%d_%s", i, n)))
 		}
 		bf := filepath.Join(root, "batch.txt")
-		os.WriteFile(bf, []byte(b.String()), 0o644)
+		// the batch file is written with LF, with CRLF, or with CRLF and blank lines before, between and after the entries
+		btxt := b.String()
+		switch (sp.Pos + sp.Conc + len(batch)) % 3 {
+		case 1:
+			btxt = strings.ReplaceAll(btxt, "\n", "\r\n")
+		case 2:
+			btxt = "\r\n" + strings.ReplaceAll(btxt, "\n", "\r\n\r\n") + "\r\n"
+		}
+		os.WriteFile(bf, []byte(btxt), 0o644)
 		out, code, to := runBinary(root, 120*time.Second, "-module", "batch", "-batch", bf, "-workingdir", root, "-concurrent", fmt.Sprint(sp.Conc))
 		c.Trace(1)
 		c.Transition(1)
